@@ -121,11 +121,20 @@ OBJECT_PAIRS = [
      'class Box(v) { value: `v` }\nstart = [let a = Box(1) in `type(a.value).__name__`, let a = Box(True) in `type(a.value).__name__`, /.*/]\n'),
     ('class W { w: /[a-z]+/ }\nPair(p) = [`p`, W]\nstart = (let a = W in (Pair(a) << "!")) | ("a" >> (let a = W in Pair(a)))\n',
      'class W { w: /[a-z]+/ }\nstart = (let a = W in ([`a`, W] << "!")) | ("a" >> (let a = W in [`a`, W]))\n'),
+    # a call-site name that is also the parameter of a lambda in the same piece of inline Python (the `n=n` idiom)
+    ('Int = /[0-9]/ |> `int`\nItem = /[a-z]/\nAngle(p) = "<" >> p << ">"\nVal(v) = "<" >> `v` << ">"\nstart = let n = Int in [Angle(Item* where `lambda items, n=n: len(items) == n`), Val(`(lambda n: n + 1)(n)`)]\n',
+     'Int = /[0-9]/ |> `int`\nItem = /[a-z]/\nstart = let n = Int in ["<" >> (Item* where `lambda items, n=n: len(items) == n`) << ">", "<" >> `(lambda n: n + 1)(n)` << ">"]\n'),
+    # a class with parameters whose name is that of a built-in expression constructor
+    ('class List(item) {{ items: "[" >> (item /? ",") << "]" }}\nclass Opt(x) {{ value: Some(x) | "none" }}\nInt = /[0-9]/ |> `int`\nstart = List(Int) | Opt(x=Int)\n'.replace('{{', '{').replace('}}', '}'),
+     'class List {{ items: "[" >> (Int /? ",") << "]" }}\nclass Opt {{ value: Some(Int) | "none" }}\nInt = /[0-9]/ |> `int`\nstart = List | Opt\n'.replace('{{', '{').replace('}}', '}')),
+    # keyword arguments and containers whose values are == but of different types
+    ('Show(v) = `repr(v)`\nKind(vs) = `[v.__class__.__name__ for v in vs]`\nstart = [Show(v=`1`), Show(v=`True`), Show(v=`1.0`), Kind(`[0, "a"]`), Kind(`[False, "a"]`), Kind(vs=`(0.0, "a")`), Kind(vs=`(0, "a")`), /.*/]\n',
+     'start = [`repr(1)`, `repr(True)`, `repr(1.0)`, `["int", "str"]`, `["bool", "str"]`, `["float", "str"]`, `["int", "str"]`, /.*/]\n'),
     # an inline Python argument is one argument, whatever commas it contains
     ('T(a) = [`a`, /[a-z]?/]\nU(a, b) = `(a, b)`\nstart = [T(`1, 2`), U(b=`3, 4`, a=`[i for i in (1, 2)]`), T(a=`5, `)]\n',
      'start = [[`(1, 2)`, /[a-z]?/], `([i for i in (1, 2)], (3, 4))`, [`(5, )`, /[a-z]?/]]\n'),
 ]
-OBJECT_INPUTS = ['07!y', '7!x', '07!x', '7!y', '', 'ab', 'aab', 'abab!', 'aabab', 'a']
+OBJECT_INPUTS = ['07!y', '7!x', '07!x', '7!y', '', 'ab', 'aab', 'abab!', 'aabab', 'a', '2<ab><>', '1<a><>', '2<a><>', '[1,2]', '[1,2,]', '12', 'none', '[]']
 BYTES_INPUTS = [b'ab', b'abab', b'abc', b'a', b'aa', b'aab', b'b', b'c', b'abca', b'', b'cab', b'ba']
 
 
